@@ -289,6 +289,10 @@ impl Read for Src {
         };
         let n = want.max(1).min(buf.len()).min(limit - self.pos);
         buf[..n].copy_from_slice(&self.data[self.pos..self.pos + n]);
+        // a Read implementation may use the rest of the slice as scratch space: leave digits and letters there
+        for (i, b) in buf[n..].iter_mut().take(16).enumerate() {
+            *b = b"7z"[i % 2];
+        }
         self.pos += n;
         m.delivered.set(self.pos);
         m.last_read.set(n);
